@@ -98,6 +98,15 @@ MUTS = {
     "M80_axis_minimum_is_default": ("write_variable_font.py", "            minimum=min(\n                p.position\n                for m in font_config.masters\n                for p in m.position\n                if p.axisTag == a.axisTag\n            ),", "            minimum=a.default,", ["C18"]),
     "M79_master_locations_shuffled": ("write_variable_font.py", "        location = {axis_names[p.axisTag]: p.position for p in master.position}\n", "        location = {axis_names[p.axisTag]: sorted(q.position for mm in font_config.masters for q in mm.position)[list(font_config.masters).index(master)] if len(font_config.masters) > 2 else p.position for p in master.position}\n", ["C18"]),
     "M81_default_master_position_as_given": ("write_variable_font.py", "            default=a.default,\n", "            default=font_config.masters[0].position[0].position,\n", ["C18"]),
+    "M54_copy_svg_without_reorder": ("glue_together.py", "    reorder_glyphs(target, new_glyph_order)\n    target[\"SVG \"] = donor[\"SVG \"]", "    target[\"SVG \"] = donor[\"SVG \"]", ["C12"]),
+    "M56_mergeable_uses_hhea": ("write_config_for_mergeable.py", "    ascender = font[\"OS/2\"].sTypoAscender\n    descender = font[\"OS/2\"].sTypoDescender", "    ascender = font[\"hhea\"].ascent + 50\n    descender = font[\"hhea\"].descent", ["C12"]),
+    "M57_glyphmap_off_by_one": ("write_glyphmap_for_glyph_svgs.py", "                    glyph_name=glyph_order[int(svg_file.stem)],", "                    glyph_name=glyph_order[max(1, int(svg_file.stem) - 1)] if int(svg_file.stem) %% 2 else glyph_order[int(svg_file.stem)],".replace("%%", "%"), ["C12"]),
+    "M58_always_strip_names": ("maximum_color.py", "            if config.load().keep_glyph_names:\n", "            if False:\n", ["C12"]),
+    "M58b_F10_reverted_cff_charset": ("reorder_glyphs.py", "                top_dict.charset = list(new_glyph_order)\n", "                pass\n", ["C12", "C11"]),
+    "M34_docs_not_regrouped": ("svg.py", "    _ensure_groups_grouped_in_glyph_order(color_glyphs, ttfont, reuse_groups)\n", "    pass\n", ["C07"]),
+    "M35_gradient_cache_not_reset": ("svg.py", "        reuse_cache.gradient_ids = {}  # don't share gradients across groups\n", "", ["C07", "C02"]),
+    "M38_post_left_2": ("write_font.py", "            ttfont[\"post\"].formatType = 3  # no glyph names\n", "            pass\n", ["C07", "C04"]),
+    "M38b_docs_sorted_by_name": ("svg.py", "    doc_list = []\n    for group in reuse_groups:", "    doc_list = []\n    for group in sorted(reuse_groups, key=lambda g: g[0][::-1]):", ["C07", "C02"]),
     "M68_unindexed_popleft": ("colors.py", "            result[i] = cpal_colors.pop()\n", "            result[i] = cpal_colors.popleft() if cpal_colors[0].palette_index is None else cpal_colors.pop()\n", ["C15"]),
     "M69_slots_len_only": ("colors.py", "    cpal_slots = max(len(all_colors), max(indexed_colors, default=-1) + 1)", "    cpal_slots = max(len(all_colors), len(indexed_colors))", ["C15"]),
     "M70_conflict_by_rgb_only": ("colors.py", "            if color.palette_index in indexed_colors:\n", "            if color.palette_index in indexed_colors and indexed_colors[color.palette_index][:3] != color[:3]:\n", ["C15"]),
